@@ -342,7 +342,7 @@ def key_params_of_site(b, i, kind, f):
 
 
 def rule_w1(ctx, R):
-    dm = shared.direct_mutators(ctx)
+    dm = shared.direct_mutators(ctx, include_purge=True)
     ns = 0; nm = 0
     for fn, (sites, stores) in sorted(dm.items()):
         b = ctx.prog.bodies[fn]
